@@ -52,8 +52,13 @@ class NodeVisitor(visitor.PartialVisitor[ast.AST]):
         """
         Returns the nested nodes in the body of a node.
         """
+        if isinstance(node, ast.Expr):
+            # The expression of an expression statement is walked like a child,
+            # so extensions enter and leave it inside the statement.
+            yield node.value
+            return
         body: Optional[Sequence[ast.AST]] = getattr(node, 'body', None)
-        if body is not None:
+        if isinstance(body, list):
             for child in body:
                 yield child
         if not isinstance(node, ast.If):
